@@ -366,10 +366,12 @@ func (gs GenesisState) ValidateSlashStates(operators, avs map[string]struct{}) e
 				slash,
 			)
 		}
-		if slash.Info.SlashProportion.IsNil() || slash.Info.SlashProportion.LTE(sdkmath.LegacyNewDec(0)) {
+		// the keeper accepts (and records) a slash whose proportion is zero, e.g. when the
+		// slashing module's downtime fraction is zero
+		if slash.Info.SlashProportion.IsNil() || slash.Info.SlashProportion.IsNegative() {
 			return errorsmod.Wrapf(
 				ErrInvalidGenesisData,
-				"invalid slash proportion, it's nil, zero, or negative: %+v",
+				"invalid slash proportion, it's nil, or negative: %+v",
 				slash,
 			)
 		}
@@ -391,30 +393,25 @@ func (gs GenesisState) ValidateSlashStates(operators, avs map[string]struct{}) e
 			)
 		}
 		// validate the slashing record regarding undelegation
-		SlashFromUndelegationVal := func(_ int, slashFromUndelegation SlashFromUndelegation) error {
-			if slashFromUndelegation.Amount.IsNil() || slashFromUndelegation.Amount.LTE(sdkmath.NewInt(0)) {
+		// the executed amount of an entry can be zero because of rounding, and a staker can
+		// have several pending undelegations of the same asset slashed by the same event,
+		// so that the entries aren't unique regarding the staker and asset.
+		for _, slashFromUndelegation := range slash.Info.ExecutionInfo.SlashUndelegations {
+			if slashFromUndelegation.Amount.IsNil() || slashFromUndelegation.Amount.IsNegative() {
 				return errorsmod.Wrapf(
 					ErrInvalidGenesisData,
-					"invalid slashing amount from the undelegation, it's nil, zero, or negative: %+v",
+					"invalid slashing amount from the undelegation, it's nil, or negative: %+v",
 					slash,
 				)
 			}
-			return nil
-		}
-		seenFieldValueFunc := func(slashFromUndelegation SlashFromUndelegation) (string, struct{}) {
-			key := assetstypes.GetJoinedStoreKey(slashFromUndelegation.StakerID, slashFromUndelegation.AssetID)
-			return string(key), struct{}{}
-		}
-		_, err = utils.CommonValidation(slash.Info.ExecutionInfo.SlashUndelegations, seenFieldValueFunc, SlashFromUndelegationVal)
-		if err != nil {
-			return errorsmod.Wrap(ErrInvalidGenesisData, err.Error())
 		}
 		// validate the slashing record regarding assets pool
 		SlashFromAssetsPoolVal := func(_ int, slashFromAssetsPool SlashFromAssetsPool) error {
-			if slashFromAssetsPool.Amount.IsNil() || slashFromAssetsPool.Amount.LTE(sdkmath.NewInt(0)) {
+			// the executed amount can be zero because of rounding or an empty pool
+			if slashFromAssetsPool.Amount.IsNil() || slashFromAssetsPool.Amount.IsNegative() {
 				return errorsmod.Wrapf(
 					ErrInvalidGenesisData,
-					"invalid slashing amount from the assets pool, it's nil, zero, or negative: %+v",
+					"invalid slashing amount from the assets pool, it's nil, or negative: %+v",
 					slash,
 				)
 			}
